@@ -107,6 +107,16 @@ func (g *ruleGen) bind(typ byte, v string) {
 	g.bound[typ] = append(g.bound[typ], v)
 }
 
+func (g *ruleGen) unbind(typ byte, v string) {
+	var kept []string
+	for _, x := range g.bound[typ] {
+		if x != v {
+			kept = append(kept, x)
+		}
+	}
+	g.bound[typ] = kept
+}
+
 // argFor draws an argument for a positive atom column of type typ.
 func (g *ruleGen) posArg(typ byte, pending *[][2]string) Term {
 	r := rapid.IntRange(0, 99).Draw(g.t, "argkind")
@@ -363,6 +373,16 @@ func genRule(t *rapid.T, o GenOpts, schema []PredInfo, h PredInfo, exitRule bool
 				g.bind('n', a)
 			}
 			g.bind('n', b)
+			if ta.IsVar() && rapid.IntRange(0, 3).Draw(t, "mpWild") == 0 { // one component is not wanted
+				if rapid.Bool().Draw(t, "mpWildFst") {
+					ta = Var("_")
+					g.unbind('n', a)
+				} else {
+					tb = Var("_")
+					g.unbind('n', b)
+				}
+				labels["match-with-wildcard"] = true
+			}
 			body = append(body, PosLit(Atom{Pred: ":match_pair", Args: []Term{Var(p), ta, tb}}))
 			labels["struct"] = true
 			labels["builtin-pred"] = true
@@ -385,9 +405,23 @@ func genRule(t *rapid.T, o GenOpts, schema []PredInfo, h PredInfo, exitRule bool
 				g.bind('n', x)
 			case 1:
 				hd, tl := g.fresh('n'), g.fresh('l')
-				body = append(body, PosLit(Atom{Pred: ":match_cons", Args: []Term{Var(l), Var(hd), Var(tl)}}))
-				g.bind('n', hd)
-				g.bind('l', tl)
+				th, tt := Var(hd), Var(tl)
+				switch rapid.IntRange(0, 7).Draw(t, "mcWild") { // head or tail is not wanted
+				case 0:
+					th = Var("_")
+				case 1:
+					tt = Var("_")
+				}
+				body = append(body, PosLit(Atom{Pred: ":match_cons", Args: []Term{Var(l), th, tt}}))
+				if !th.IsWildcard() {
+					g.bind('n', hd)
+				}
+				if !tt.IsWildcard() {
+					g.bind('l', tl)
+				}
+				if th.IsWildcard() || tt.IsWildcard() {
+					labels["match-with-wildcard"] = true
+				}
 			default:
 				x := g.fresh('n')
 				body = append(body, EqLit(Var(x), Fn("fn:list:len", Var(l))))
